@@ -17,8 +17,9 @@ def plan(prop, tier):
     fam = life.FAMILIES[tier]
     gated = [f for f in fam if f[0] != "caltrack"]
     q = tier == "quick"
+    extra_prof = [("hourly", "solar_tf"), ("daily", "custommaps")] if q else []      # profiles C01's quick tier also fits: the clauses owned here are judged on them too
     if prop == "C04":
-        return dict(scen=[("gate", gated), ("gate2", gated if not q else gated[:1]), ("refit", gated), ("free", gated if not q else gated[:2])], per=(6 if q else 16),
+        return dict(scen=[("gate", gated + extra_prof), ("gate2", gated if not q else gated[:1]), ("refit", gated), ("free", gated if not q else gated[:2])], per=(6 if q else 16),
                     rule="histories new/fit/sweep/save/restart/load over baselines {qualified, too short, poor fit, gaps, other tz} x ignore flags; "
                          "a sweep predicts every (report kind, ignore flag, aggregation); distinct = distinct (abstract history, family, profile)" + "; plus free-form histories (template T_free: every operation allowed at every position, 300 behaviours per family from tlc -simulate with the invariants checked along them, depth 12) chosen by feature cover",
                     extra=["C04 is decided for the three families that have a gate (daily, billing, hourly); the CalTRACK hourly wrapper has none",
@@ -30,7 +31,7 @@ def plan(prop, tier):
                     rule="histories fit/sweep/save/(restart)/load/sweep/resave per family and profile; distinct = distinct (abstract history, family, profile)",
                     extra=["document equality is JSON-value equality", "the formula clause of C01 is decided by the DailyCurve module (C11/C12 checks), not here"])
     if prop == "C02":
-        return dict(scen=[("pure", fam), ("inter", fam if not q else fam[:3]), ("free", fam if not q else fam[1:3])], per=(6 if q else 16),
+        return dict(scen=[("pure", fam + extra_prof), ("inter", fam if not q else fam[:3]), ("free", fam if not q else fam[1:3])], per=(6 if q else 16),
                     rule="histories of 4-6 predicts over reports of five spans with/without observed, interleaved fits on a second slot, user "
                          "overwriting frames handed out; whole-state projection compared after every call" + "; plus free-form histories (template T_free: every operation allowed at every position, 300 behaviours per family from tlc -simulate with the invariants checked along them, depth 12) chosen by feature cover",
                     extra=[])
@@ -60,7 +61,7 @@ def run(prop, tier):
             hist = []
             for did, kind, name, obs in (("b:good", "baseline", "good", "orig"), ("b:gaps", "baseline", "gaps", "orig"),
                                          ("r:wmonth:orig", "reporting", "wmonth", "orig"), ("r:wweek:absent", "reporting", "wweek", "absent")):
-                for entry in (["frame"] if fam == "caltrack" else ["frame", "dtcol"] + (["series"] if fam in ("daily", "billing") else [])):
+                for entry in (["frame"] if fam == "caltrack" else ["frame", "dtcol"] + (["series", "series_utc"] if fam in ("daily", "billing") else [])):
                     hist.append({"op": "make", "d": "%s@%s" % (did, entry), "fam": fam, "kind": kind, "name": name, "obs": obs, "entry": entry})
             hist.append({"op": "readdf", "d": "b:good@frame"})
             extra_jobs.append({"hist": hist, "abstract": [{"op": "dataonly", "fam": fam}], "scenario": "dataonly", "fam": fam, "prof": "-"})
